@@ -18,7 +18,7 @@ Definition d_listener (s : sexp) : option listener :=
   | _ => None
   end.
 
-Definition d_api (s : sexp) : option api :=
+Definition d_api0 (s : sexp) : option api :=
   match s with
   | L [A 0] => Some ApiStart
   | L [A 1] => Some ApiStop
@@ -43,6 +43,14 @@ Definition d_api (s : sexp) : option api :=
   | L [A 20; es; d] => let? es' := dlist d_entry es in let? d' := d_dest d in Some (ApiSendSd es' d')
   | L [A 21; A i; egs] => let? egs' := dlist dN egs in Some (ApiSetReject i egs')
   | _ => None
+  end.
+(* 22, 23, 24: the call is made one, two, three loop iterations after the instant's first *)
+Definition d_api (s : sexp) : option api :=
+  match s with
+  | L [A 22; c] => let? c' := d_api0 c in Some (ApiSoon c')
+  | L [A 23; c] => let? c' := d_api0 c in Some (ApiSoon (ApiSoon c'))
+  | L [A 24; c] => let? c' := d_api0 c in Some (ApiSoon (ApiSoon (ApiSoon c')))
+  | _ => d_api0 s
   end.
 
 Definition d_event_in (s : sexp) : option (N * handle) :=
